@@ -722,4 +722,11 @@ def translate(repo, py):
                  checked, "" if ok else "; OFFENDERS: " + "; ".join(o.replace("*)", "* )").replace("(*", "( *") for o in offenders),
                  "true" if ok else "false"))
     unknown = unknown + ["exceptions.py: " + o for o in offenders]
-    return text, {"unknown_hooks": unknown, "fingerprints": d.get("fingerprints", {}), "describe": d, "describe_custom": dc}
+    import tr_c17flow
+    ftext, fres = tr_c17flow.emit(repo)
+    text += ftext
+    unknown = unknown + ["flow inventory: %s %s %s %s" % o for o in fres["unmatched"]]
+    flow = {"occurrences": fres["occurrences"], "auto": fres["auto"], "reviewed": fres["reviewed"],
+            "sites": fres["sites"], "unmatched": ["%s %s %s %s" % o for o in fres["unmatched"]]}
+    return text, {"unknown_hooks": unknown, "fingerprints": d.get("fingerprints", {}), "describe": d, "describe_custom": dc,
+                  "flow": flow}
